@@ -310,3 +310,112 @@ def spec_summary(spec):
     for e in spec["elements"]:
         kinds[e["kind"]] = kinds.get(e["kind"], 0) + 1
     return {"fluid": spec["fluid"], "junctions": len(spec["junctions"]), "elements": kinds}
+
+
+# ------------------------------------------------------------------------------------------------
+# district heating loops
+# ------------------------------------------------------------------------------------------------
+CONSUMER_MODES = ["MF_DT", "MF_TR", "QE_MF", "QE_DT", "QE_TR"]
+
+
+def gen_heating(rng, n=None, source=None, modes=CONSUMER_MODES, chords=None, max_sections=4, u_max=2.0,
+                exchangers=True, negative_heat=False):
+    """Flow/return tree pair closed by heat consumers (and flow-controlled heat exchangers), fed by a
+    circulation pump (pressure or mass) or by a pt grid on the flow side and a p grid on the return side."""
+    n = int(n or rng.integers(2, 8))
+    source = source or str(rng.choice(["cpp", "cpm", "grid"]))
+    t_flow = float(rng.uniform(350, 390))
+    js, els = [], []
+    cnt = {}
+
+    def add(kind, **kw):
+        k = cnt.get(kind, 0)
+        cnt[kind] = k + 1
+        e = {"kind": kind, "name": "%s%d" % (kind, k)}
+        e.update(kw)
+        els.append(e)
+        return e
+
+    def junction(name, t, h=0.0):
+        js.append({"name": name, "pn_bar": 5.0, "tfluid_k": float(t), "height_m": float(h), "in_service": True})
+
+    hs = rng.uniform(0, 30, n) if rng.random() < 0.5 else np.zeros(n)
+    tf0, tr0 = float(rng.uniform(330, 370)), float(rng.uniform(300, 330))
+    for i in range(n):
+        junction("f%d" % i, tf0, hs[i])
+    for i in range(n):
+        junction("r%d" % i, tr0, hs[i])
+    parent = {}
+    children = {i: [] for i in range(n)}
+
+    def pipe(a, b):
+        d = float(rng.uniform(50, 160))
+        return add("pipe", from_junction=a, to_junction=b, length_km=float(rng.uniform(0.05, 0.3)),
+                   inner_diameter_mm=d, outer_diameter_mm=d + float(rng.uniform(4, 30)),
+                   k_mm=float(rng.uniform(0.01, 0.2)), sections=int(rng.integers(1, max_sections + 1)),
+                   u_w_per_m2k=float(rng.uniform(0, u_max)) if rng.random() < 0.85 else 0.0,
+                   text_k=float(rng.uniform(268, 293)), in_service=True)
+
+    for i in range(1, n):
+        k = int(rng.integers(0, i))
+        parent[i] = k
+        children[k].append(i)
+        pipe("f%d" % k, "f%d" % i)
+        pipe("r%d" % i, "r%d" % k)
+    nch = int(rng.integers(0, 3)) if chords is None else chords
+    for _ in range(nch if n > 2 else 0):
+        a, b = (int(x) for x in rng.choice(np.arange(1, n), 2, replace=False)) if n > 2 else (0, 1)
+        pipe("f%d" % a, "f%d" % b)
+        if rng.random() < 0.5:
+            pipe("r%d" % a, "r%d" % b)
+    cons_nodes = [i for i in range(n) if not children[i] or rng.random() < 0.35]
+    if source == "cpm" and 0 not in cons_nodes and len(cons_nodes) < 2:
+        cons_nodes.append(0)
+    total = 0.0
+    free_done = source != "cpm"
+    for i in cons_nodes:
+        m = float(rng.uniform(0.2, 1.5))
+        dt = float(rng.uniform(10, 40))
+        q = m * 4185.0 * dt * (-1.0 if (negative_heat and rng.random() < 0.3) else 1.0)
+        tr = float(rng.uniform(305, 335))
+        a, b = "f%d" % i, "r%d" % i
+        if not free_done:
+            # the mass pump prescribes the total flow: one branch must stay free
+            add("heat_exchanger", from_junction=a, to_junction=b, qext_w=q, inner_diameter_mm=float(rng.uniform(40, 120)),
+                loss_coefficient=float(rng.uniform(5, 50)), in_service=True)
+            free_done = True
+            total += m
+            continue
+        if exchangers and rng.random() < 0.2:
+            x = "x%d" % i
+            junction(x, tf0, hs[i])
+            add("flow_control", from_junction=a, to_junction=x, controlled_mdot_kg_per_s=m, control_active=True, in_service=True)
+            add("heat_exchanger", from_junction=x, to_junction=b, qext_w=q, inner_diameter_mm=float(rng.uniform(40, 120)),
+                loss_coefficient=float(rng.uniform(0, 20)), in_service=True)
+            total += m
+            continue
+        mode = str(rng.choice(list(modes)))
+        kw = dict(from_junction=a, to_junction=b, in_service=True)
+        if mode == "MF_DT":
+            kw.update(controlled_mdot_kg_per_s=m, deltat_k=dt)
+        elif mode == "MF_TR":
+            kw.update(controlled_mdot_kg_per_s=m, treturn_k=tr)
+        elif mode == "QE_MF":
+            kw.update(controlled_mdot_kg_per_s=m, qext_w=q)
+        elif mode == "QE_DT":
+            kw.update(qext_w=abs(q), deltat_k=dt)
+        else:
+            kw.update(qext_w=abs(q), treturn_k=tr)
+        add("heat_consumer", **kw)
+        total += m
+    p_flow = float(rng.uniform(6, 10))
+    if source == "cpp":
+        add("circ_pump_pressure", return_junction="r0", flow_junction="f0", p_flow_bar=p_flow,
+            plift_bar=float(rng.uniform(1.5, 4)), t_flow_k=t_flow, in_service=True)
+    elif source == "cpm":
+        add("circ_pump_mass", return_junction="r0", flow_junction="f0", p_flow_bar=p_flow,
+            mdot_flow_kg_per_s=total * float(rng.uniform(1.0, 1.3)), t_flow_k=t_flow, in_service=True)
+    else:
+        add("ext_grid", junction="f0", p_bar=p_flow, t_k=t_flow, type="pt", in_service=True)
+        add("ext_grid", junction="r0", p_bar=p_flow - float(rng.uniform(1.5, 4)), t_k=tr0, type="p", in_service=True)
+    return {"fluid": "water", "junctions": js, "elements": els, "heating": {"source": source, "t_flow": t_flow}}
